@@ -315,6 +315,44 @@ def r5_fixpoint(chk):
     pv = b['p'] if b else '?'
     need = ['%s in self._out' % pv, '%s in self._importMap' % pv, '%s in self.baseTypes' % pv, '%s in self._rows' % pv]
     chk.ob('C01.R5', 'allParentsExists', all(n in txt for n in need), where(mod, ap), '')
+    # polarity, by reachability under a valuation of the predicates
+    call_txt = 'self.allParentsExists(%s)' % rs.args.args[3].arg if len(rs.args.args) > 3 else None
+    rcfg = CFG(rs)
+    if call_txt and stores and post:
+        common.requires(chk, 'C01.R5', 'regSym/registers-when-parents-exist', rcfg, mod, [rcfg.node_of(stores[0])],
+                        {call_txt: True})
+        common.requires(chk, 'C01.R5', 'regSym/postpones-when-a-parent-is-missing', rcfg, mod, [rcfg.node_of(post[0])],
+                        {call_txt: False})
+    pcfg = CFG(rp)
+    pst = [s_ for s_ in walk_no_nested(rp) if isinstance(s_, ast.Assign) and isinstance(s_.targets[0], ast.Subscript) and
+           common.is_self_attr(s_.targets[0].value, '_out')]
+    pcalls = [norm(c) for c in walk_no_nested(rp) if isinstance(c, ast.Call) and norm(c.func) == 'self.allParentsExists']
+    if pcalls:
+        common.requires(chk, 'C01.R5', 'regPostponedSyms/registers-when-parents-exist', pcfg, mod,
+                        [pcfg.node_of(x) for x in pst], {pcalls[0]: True})
+    # allParentsExists: the flag starts true, becomes false exactly when a parent is in none of the known sets, and is
+    # what the function returns
+    acfg = CFG(ap)
+    flags = [s_ for s_ in walk_no_nested(ap) if isinstance(s_, ast.Assign) and isinstance(s_.value, ast.Constant) and
+             isinstance(s_.value.value, bool) and isinstance(s_.targets[0], ast.Name)]
+    fv = flags[0].targets[0].id if flags else None
+    init = [s_ for s_ in ap.body if s_ in flags and s_.value.value is True]
+    falses = [s_ for s_ in flags if s_.value.value is False]
+    rets = [x for x in walk_no_nested(ap) if isinstance(x, ast.Return)]
+    chk.ob('C01.R5', 'allParentsExists/flag', len(init) == 1 and len(falses) == 1 and len(rets) == 1 and fv is not None and
+           norm(rets[0].value) == fv, where(mod, ap), 'flag = True; ... flag = False; return flag')
+    if falses:
+        for atom in need + ["%s in ('MibTable', 'MibTableRow', 'MibTableColumn')" % pv]:
+            seen = common.reach_under(acfg, [acfg.entry], {atom: True})
+            # when the parent is in one of the sets the flag must not be cleared *for that parent*: with a single
+            # disjunct true the `not (a or b ...)` test is false
+            chk.ob('C01.R5', 'allParentsExists/known-parent(%s)' % atom.split(' in ')[-1][:20],
+                   acfg.node_of(falses[0]) not in seen, where(mod, falses[0]),
+                   'a parent that is %s is reported missing' % atom)
+        seen = common.reach_under(acfg, [acfg.entry], dict((a, False) for a in need + [
+            "%s in ('MibTable', 'MibTableRow', 'MibTableColumn')" % pv]))
+        chk.ob('C01.R5', 'allParentsExists/unknown-parent', acfg.node_of(falses[0]) in seen, where(mod, ap),
+               'a parent that is in none of the sets must clear the flag')
 
 
 def r7_plumbing(chk, rule='C01.R7'):
